@@ -27,3 +27,13 @@ Theorem C20_legacy_complements_agree : forall rna s,
   (forall a b, legacy_reverse_wobble rna s = Ok a -> reverse_complement rna s = Ok b -> a = b).
 Proof. exact legacy_complements_agree. Qed.
 Print Assumptions C20_legacy_complements_agree.
+
+(* the rotation distance the legacy complex records (`DSD_Complex.rotations`) denotes the same thing as `ComplexS.turns`:
+   that many turns of the (common) canonical form give the presented representation, and it is smaller than the
+   number of strands (Proofs/C20Rot.v) *)
+From DSD Require Import Proofs.C20Rot.
+Theorem C20_legacy_rotations_denote_the_presented_representation : forall x, goodNE x ->
+  exists c r, legacy_canonical (fst x) (snd x) [] = LOk c r /\ canon_T x = Some c /\
+              Nat.iter r rotT c = x /\ r < nstr (snd x).
+Proof. exact legacy_rotations_vs_turns. Qed.
+Print Assumptions C20_legacy_rotations_denote_the_presented_representation.
